@@ -118,7 +118,7 @@ func verifDownload(allowDrop, symbolicBackoff bool) {
 	if verif.Bool("resolve_fails") {
 		r.err = errors.New("resolve: cluster is empty")
 	}
-	cc := &clusterClient{resolver: r}
+	cc := NewClusterClient(r)
 	var dst bytes.Buffer
 	var err error
 	if symbolicBackoff {
@@ -127,7 +127,7 @@ func verifDownload(allowDrop, symbolicBackoff bool) {
 		ctx, d := context.Background(), verifDigest()
 		bo := &verifBackoff{}
 		defer func() { verif.Cover("backoff-consulted", bo.nexts > 0) }()
-		err = Poll(cc.resolver, bo, d, func(client Client) error {
+		err = Poll(r, bo, d, func(client Client) error {
 			return client.DownloadBlob(ctx, "ns", d, &dst)
 		})
 	} else {
